@@ -103,11 +103,15 @@ func VerifC17_GetResults() {
 	equalLens := true
 	if verif_Bool("hasExtended") {
 		xp := &model.ExtendedProviders{}
-		xp.Providers, xp.Metadatas = c17lists("chain", 2)
+		nctx := verif_Choose("contextualSets", 0, 1+verif_Tier())
+		chainMax := 2
+		if nctx > 1 {
+			chainMax = 1 // with a second contextual set (thorough tier) the chain-level list is kept smaller
+		}
+		xp.Providers, xp.Metadatas = c17lists("chain", chainMax)
 		if len(xp.Providers) != len(xp.Metadatas) {
 			equalLens = false
 		}
-		nctx := verif_Choose("contextualSets", 0, 1+verif_Tier())
 		for i := 0; i < nctx; i++ {
 			c := model.ContextualExtendedProviders{Override: verif_Bool("override"), ContextID: verif_Str("setContextID", 1)}
 			c.Providers, c.Metadatas = c17lists("ctx", 2-i) // a second set (thorough tier) is kept smaller
